@@ -6,6 +6,7 @@ from typing import Any, Dict, List, Optional, Tuple
 
 from . import core
 from .absint import Budget, FloatV, Interp, ListV, _Unmodelled
+from . import codec
 from .codec import INFO, SER, describe_path
 from .lin import Lin
 from .rules_C06 import Raises, Setup, check_pair, children_family, const_call
@@ -222,6 +223,64 @@ def run(ctx):
             else:
                 nzero += 1
     ctx.ok("C20.2", f"{QI}.get_num_children(a, b) == 0 for all b < a", wc, f"{nzero} pairs")
+
+    # ---- C20.6 the cells that are counted are distinct ---------------------------------------------------------------
+    # "number of distinct cells": the lengths above count list entries.  That no cell is listed twice within one parent is what
+    # C06.2 establishes per resolution pair (and C06.1 that every entry is a cell of the target level); the same analysis is run
+    # here and whatever it does not discharge is reported under this property as well.  Across parents a collision witness is
+    # searched for (two valuations of parent symbols and loop variables with the same id); finding none proves nothing more.
+    from . import rules_C06
+
+    def distinct_task(a):
+        rec6 = core.Recorder(ctx)
+        n6 = 0
+        try:
+            su6 = distinct_task.su
+            su6.raising = {}
+            if su6.ids.get(a) is not None:
+                for b in range(a, MAX + 1):
+                    rules_C06.check_pair(rec6, su6, a, b)
+                    n6 += 1
+                    if b == a:
+                        continue
+                    # children of two DIFFERENT parents: the id form is evaluated at two valuations of (parent symbols, loop
+                    # variables); equal values are a witness that expanding level a lists a level-b cell twice
+                    rets, _rz = children_family(su6.interp, su6.ids[a], Lin(b))
+                    if len(rets) != 1 or not isinstance(rets[0].value, ListV) or rets[0].state.path:
+                        continue
+                    for seg in rets[0].value.segs:
+                        e = seg.elem
+                        if not isinstance(e, Lin) or e.has_opaque():
+                            continue
+                        bnames = {bs.name for bs, _ in seg.binders}
+                        par = [(sy, sy.hi - sy.lo + 1) for sy in e.syms()
+                               if sy.name not in bnames and sy.lo == 0 and sy.hi is not None and sy.hi >= 1]
+                        w_ = codec.collision_witness(e, list(seg.binders) + par)
+                        if w_ is not None:
+                            p1, p2, val = w_
+                            rec6.bad("C06.2", f"{QS}.cell_to_children(res {a} -> {b}): two different (parent, position) pairs give the same id",
+                                     core.loc(SER, ctx.sources.func(SER, "cell_to_children")),
+                                     f"child id {e} evaluates to {val:#x} both at {p1} and at {p2}: the level-{b} cells listed for level {a} are not distinct")
+        except (Budget, _Unmodelled) as e:
+            rec6.unk("C06.2", f"{QS}.cell_to_children from resolution {a}: interpretation stopped", SER, f"{type(e).__name__}: {e}")
+        # (cell_to_parent is not part of this property: C06.1's parent obligations stay with C06)
+        return [o for o in rec6.obligations if o.rule == "C06.2" or (o.rule == "C06.1" and "cell_to_parent(child" not in o.construct)], n6
+
+    try:
+        distinct_task.su = rules_C06.Setup(core.Recorder(ctx))
+        held = open_ = 0
+        for obs6, n6 in core.parallel_map(distinct_task, list(range(-1, MAX + 1))):
+            for o in obs6:
+                if o.state == core.DISCHARGED:
+                    held += 1
+                else:
+                    open_ += 1
+                    ctx.ob("C20.6", "distinct cells: " + o.construct, o.state, o.where, f"({o.rule}) {o.detail}")
+        ctx.ob("C20.6", f"{QS}.cell_to_children lists no cell twice, all resolution pairs",
+               core.DISCHARGED if not open_ and held else core.UNDECIDED, core.loc(SER, ctx.sources.func(SER, "cell_to_children")),
+               f"{held} obligations hold (C06.1 resolution / validity of every child, C06.2 no repetition within a parent; no collision witness across parents), {open_} reported separately")
+    except (Budget, _Unmodelled, core.AnalysisError) as e:
+        ctx.unk("C20.6", f"{QS}.cell_to_children: distinctness of the listed cells", SER, f"{type(e).__name__}: {e}")
 
     # ---- C20.5 the count functions do not depend on earlier calls (module-level memo tables) ------------------------
     check_history(ctx, interp, MAX, wc)
